@@ -90,6 +90,18 @@ class Unsupported(Exception):
     pass
 
 
+def wts(sp):
+    """the weighting of a tensor space as an array of per-entry weights (inner = sum w_i x_i y_i)"""
+    if getattr(sp, 'exponent', 2.0) != 2.0:
+        raise Unsupported('no inner product')
+    w = sp.weighting
+    if hasattr(w, 'array'):
+        return [float(v) for v in np.asarray(w.array).ravel()]
+    if hasattr(w, 'const'):
+        return [float(w.const)] * sp.size
+    raise Unsupported('weighting %r' % (w,))
+
+
 def _user_ops():
     import odl
 
@@ -176,7 +188,7 @@ def ser(op):
         m = np.asarray(op.matrix)
         return '(OLeaf (LMat %d %s))' % (m.shape[1], C.qss(m.tolist()))
     if t is D.InnerProductOperator:
-        return '(OLeaf (LInner %s))' % C.qs(vals(op.vector))
+        return '(OLeaf (LInner %s %s))' % (C.qs(wts(op.vector.space)), C.qs(vals(op.vector)))
     if t is D.ZeroOperator:
         return '(OLeaf (LZero %s %s))' % (sp_term(op.domain), sp_term(op.range))
     if t is D.ConstantOperator:
@@ -187,9 +199,9 @@ def ser(op):
             raise Unsupported('non-integer exponent')
         return '(OLeaf (LPow %s %s))' % (sp_term(op.domain), C.z(int(p)))
     if t is D.NormOperator:
-        return '(OLeaf (LNorm %d))' % op.domain.size
+        return '(OLeaf (LNorm %s))' % C.qs(wts(op.domain))
     if t is D.DistOperator:
-        return '(OLeaf (LDist %s))' % C.qs(vals(op.vector))
+        return '(OLeaf (LDist %s %s))' % (C.qs(wts(op.domain)), C.qs(vals(op.vector)))
     if n.endswith('_op') and n[:-3] in T.UFN and t.__module__ == 'odl.ufunc_ops.ufunc_ops':
         return '(OLeaf (LUf U%s %d))' % (n[:-3], op.domain.size)
     if n in ('PointwiseNorm', 'PointwiseInner') and t.__module__ == 'odl.operator.tensor_ops':
@@ -243,10 +255,17 @@ class Gen(object):
         self.F = odl.RealNumbers()
         self.V = {n: odl.rn(n) for n in (1, 2, 3)}
         self.Cn = {n: odl.cn(n) for n in (1, 2, 3)}
+        # the same sizes with a constant / an array weighting (different spaces for ODL; the weights only
+        # matter to InnerProduct / Norm / Dist)
+        self.W = {n: [odl.rn(n, weighting=rng.choice([2.0, 0.5, 4.0])),
+                      odl.rn(n, weighting=[rng.choice([1.0, 2.0, 0.5, 4.0]) for _ in range(n)])] for n in (1, 2, 3)}
         self._P = {}
 
     def vspace(self):
-        return self.V[self.rng.choice([1, 2, 2, 3, 3])]
+        n = self.rng.choice([1, 2, 2, 3, 3])
+        if self.rng.random() < 0.3:
+            return self.rng.choice(self.W[n])
+        return self.V[n]
 
     def pspace(self, k=None):
         k = k or self.rng.choice([1, 2, 2, 3])
@@ -357,7 +376,7 @@ class Gen(object):
             return O.FunctionalLeftVectorMult(self.leaf(dom, dom), self.el(ran))
         if self.is_f(ran):
             return D.InnerProductOperator(self.el(dom))
-        if dom.size != ran.size:
+        if dom != ran:
             k = rng.choice(['mat', 'mat', 'zero', 'const'])
             if k == 'mat':
                 return odl.MatrixOperator(np.array([rvec(rng, dom.size) for _ in range(ran.size)]),
@@ -695,11 +714,16 @@ def norm_cases(rng, tier):
     cs = C.CaseSet('normdist', ['C06.Syntax', 'Gen.UfuncDeriv', 'C06.Model', 'C06.Corr'], 'check', 'case')
     F = odl.RealNumbers()
     reps = 1 if tier == 'quick' else 4
-    for xs, vs in PYTH:
-        X = odl.rn(len(xs))
+    WPYTH = [(sp_, xs_, vs_) for xs_, vs_ in PYTH for sp_ in
+             (odl.rn(len(xs_)), odl.rn(len(xs_), weighting=4.0), odl.rn(len(xs_), weighting=[0.25] * len(xs_)))]
+    WPYTH += [(odl.rn(2, weighting=[1.0, 4.0]), [3.0, 2.0], [3.0, 0.0]),
+              (odl.rn(3, weighting=[4.0, 1.0, 1.0]), [1.0, 2.0, 1.0], [1.0, -1.0, -3.0]),
+              (odl.uniform_discr(0, 1, 4), [3.0, 4.0, 0.0, 12.0], [3.0, 4.0, 0.0, 0.0]),
+              (odl.uniform_discr(0, 0.5, 2), [6.0, 8.0], [3.0, 4.0])]
+    for X, xs, vs in WPYTH:
         x, v = X.element(xs), X.element(vs)
-        nx = math.sqrt(sum(a * a for a in xs))
-        norm_exact = nx == int(nx)
+        nx = float(x.norm())
+        norm_exact = nx == int(nx) or 2 * nx == int(2 * nx)
         N, Di = D.NormOperator(X), D.DistOperator(v)
         for _ in range(reps):
             s = rng.choice([2.0, -3.0, 0.5, 1.0, -1.0])
